@@ -564,6 +564,9 @@ func main() {
 		return
 	}
 	var scens []hx.Scenario
+	if *prop == "C11" && !r.Thorough() {
+		r.EnsureBudget(240 * time.Second) // about 90 s on an idle machine, close to the default quick budget
+	}
 	if *prop == "C05" && !r.Thorough() {
 		// the convergence scenarios are the longest executions of all checks: about 40 k of them at delay bound 1 take
 		// two to three minutes on 16 cores, more than the default quick budget
